@@ -60,14 +60,29 @@ theorem limit_trips (c : Cfg) (ar aq : Nat) (l : List Label) :
   obtain ⟨h1, h2, _, _⟩ := cur_nonneg c ar aq l
   exact ⟨canCreate_iff _ _ (by omega), canCreate_iff _ _ (by omega)⟩
 
-/-- a retry is refused for overflow exactly when the retries resource is at its limit: with `k` slots held by others
-and a limit `m > 0`, the decision after the previous try's slot was given back is "admit iff k < m" -/
-theorem retry_admission (c : Cfg) (ar aq : Nat) (l : List Label) (h : rsHeld (reach c ar aq l) = false) :
+/-- with nothing held by this request, the breaker admits a retry iff the slots held by others are below the limit -/
+theorem admission_when_idle (c : Cfg) (ar aq : Nat) (l : List Label) (h : rsHeld (reach c ar aq l) = false) :
     Gen.Resource.canCreate c.maxRetries (reach c ar aq l).retries = true ↔ (c.maxRetries = 0 ∨ ar < c.maxRetries) := by
   have := (limit_trips c ar aq l).1
   have h1 := (ledger_exact c ar aq l).1
   rw [this, h1]
   simp [heldRetry, h]
+
+/-- **retry_admission**: the admission rule AT EACH RETRY DECISION.  In every reachable state, for every failure the
+retry policy accepts (`doRetryCheck`) with retry budget left, the decision of the regenerated `retryState.retry` is
+"retry" iff `max_retries` is unlimited or the slots held by OTHER requests are below it, and "overflow" otherwise —
+whether or not this request still holds the slot of its own previous retry: `retry` gives that slot back before it asks
+`CanCreate`, so a request's second, third, … consecutive retry is admitted exactly like its first (with `max_retries = 1`
+and nobody else retrying, every retry of the request is admitted). -/
+theorem retry_admission (c : Cfg) (ar aq : Nat) (l : List Label) (reason : Option Reason) (r : RetryState)
+    (hr : (reach c ar aq l).rs = some r) (hrem : r.remaining ≠ 0) (hchk : retryCheck c (reach c ar aq l) reason = true) :
+    ((rsRetry c (reach c ar aq l) reason).2 = Gen.ProxyRetry.ShouldRetry ↔ (c.maxRetries = 0 ∨ ar < c.maxRetries)) ∧
+    ((rsRetry c (reach c ar aq l) reason).2 = Gen.ProxyRetry.RetryOverflow ↔ ¬ (c.maxRetries = 0 ∨ ar < c.maxRetries)) := by
+  have h1 := (ledger_exact c ar aq l).1
+  rw [heldRetry_eq c _ r hr] at h1
+  have := retry_admit c r (reach c ar aq l).retries ar (by omega) h1 hrem
+  simp only [rsRetry, retryRes, hr, hchk, Option.map_some]
+  simpa using this
 
 -- non-vacuity
 /-- a retry in flight holds exactly one slot on top of the ambient load … -/
@@ -89,6 +104,18 @@ example : ((fun (s : S) => (s.cleaned, s.retries, s.requests, s.upActive, s.down
       (List.replicate 12 .work ++ [.upReset 0 .StreamConnectionFailed] ++ List.replicate 5 .work ++ [.terminate 418] ++
         List.replicate 3 .work))) = (true, 1, 0, 0, 0) := by decide
 
+/-- `max_retries = 1`, nobody else retrying: the request's first AND second consecutive retry are admitted (three attempts),
+and each holds exactly one slot while it is in flight -/
+example : ((fun (s : S) => (s.trace, s.retries))
+    (reach { retryOn := true, numRetries := 2, maxRetries := 1 } 0 0
+      (List.replicate 12 .work ++ [.upReset 0 .StreamConnectionFailed] ++ List.replicate 5 .work ++
+        [.upReset 1 .StreamConnectionFailed] ++ List.replicate 5 .work))) =
+    ([.un 0, .uh 0 true, .un 1, .uh 1 true, .un 2, .uh 2 true], 1) := by decide
+/-- the hypotheses of `retry_admission` hold at the second decision of that schedule (slot of the first retry still held) -/
+example : ((fun (s : S) => (s.rs, retryCheck { retryOn := true, numRetries := 2, maxRetries := 1 } s (some .StreamConnectionFailed)))
+    (reach { retryOn := true, numRetries := 2, maxRetries := 1 } 0 0
+      (List.replicate 12 .work ++ [.upReset 0 .StreamConnectionFailed] ++ List.replicate 5 .work ++
+        [.upReset 1 .StreamConnectionFailed]))) = (some ⟨2, true⟩, true) := by decide
 
 /-!
 ## The TCP proxy (`pkg/filter/network/streamproxy`): the cluster's `Connections()` resource and the connection gauges
